@@ -328,3 +328,88 @@ def _helper_formats(ctx: Ctx, f: FunctionInfo, atom) -> bool:
                         if r.value is not None and any(a.kind == "call" and a.text.split(".")[-1] in ("format", "format_one") for a in fl.depends(r.value)):
                             return True
     return False
+
+
+def rule_pathfirst(ctx: Ctx) -> RuleResult:
+    """C05 / C06 / C11: a path is typed by the first path template (configuration order) that accepts it, a given type by that one
+    template; the templates alone decide (no exit before the resolver was asked, no selection among the templates beside it)."""
+    res = RuleResult("R-PATHFIRST")
+    f = ctx.p.function("spil.sid.pathops.fs_resolver.path_to_dict")
+    flow = flow_of(f.node)
+    cfg = cfg_of(f.node)
+    path_p = f.params[0]
+    type_p = f.params[1] if len(f.params) > 1 else "_type"
+    calls = {"resolve_first": [], "resolve_one": [], "resolve_all": []}
+    for n in own_nodes(f.node):
+        if isinstance(n, ast.Call) and isinstance(n.func, ast.Attribute) and n.func.attr in calls:
+            calls[n.func.attr].append(n)
+    why: List[str] = []
+    firsts = calls["resolve_first"]
+    if len(firsts) != 1:
+        why.append(f"{len(firsts)} resolve_first calls (expected one: every path template is tried, in configuration order)")
+    else:
+        c = firsts[0]
+        at = flow.node_of(c)
+        if len(c.args) != 1 or not any(a.kind == "param" and a.text == path_p for a in flow.depends(c.args[0], at.id if at else None)):
+            why.append(f"`{norm(c)}` does not resolve the given path")
+        fs = facts_at(ctx, f, c)
+        if (type_p, True) in fs:
+            why.append("resolve_first is used although a type is given")
+        recv_deps = flow.depends(c.func.value, at.id if at else None)
+        if not any(a.kind == "call" and a.text.endswith("Resolver.get") for a in recv_deps):
+            why.append(f"`{norm(c)}` is not called on the path configuration's Resolver")
+    for c in calls["resolve_one"]:
+        fs = facts_at(ctx, f, c)
+        if (type_p, True) not in fs or len(c.args) != 2 or norm(c.args[1]) != type_p:
+            why.append(f"`{norm(c)[:60]}` tries a template chosen by something other than the given type: templates are selected beside the resolver")
+    if not why and firsts:
+        asked = [cfg.node_of(c).id for c in firsts + calls["resolve_one"] if cfg.node_of(c) is not None]
+        for r in [n for n in own_nodes(f.node) if isinstance(n, ast.Return)]:
+            rn = cfg.node_of(r)
+            if rn is not None and cfg.path_exists(cfg.entry.id, rn.id, avoid=asked, exceptional=False):
+                why.append(f"`{norm(r)}` can be reached without asking the resolver")
+                break
+    if why:
+        res.violation([f.qualname, "first template"], "path_to_dict: " + "; ".join(why), f.relpath, f.node.lineno)
+    else:
+        res.ok("fs_resolver.path_to_dict", "resolve_first(path) on the configuration's Resolver when no type is given, resolve_one(path, _type) "
+                                           "otherwise; no exit before one of them")
+    # the type that owns the path is the type of the Sid: path_to_sid hands the template found by path_to_dict on, it does not
+    # derive a type from the fields a second time (several types share one key set)
+    g = ctx.p.function("spil.sid.core.sid_factory.path_to_sid")
+    gflow = flow_of(g.node)
+    p2d = [n for n in own_nodes(g.node) if isinstance(n, ast.Call) and (dotted(n.func) or "").endswith("path_to_dict")]
+    if len(p2d) != 1:
+        res.violation([g.qualname, "path_to_dict"], "path_to_sid does not ask path_to_dict once", g.relpath, g.node.lineno)
+        return res
+
+    def is_owner_type(e: ast.AST, at_node: ast.AST) -> bool:
+        if isinstance(e, ast.Subscript) and e.value is p2d[0] and norm(e.slice) == "0":
+            return True
+        if not isinstance(e, ast.Name):
+            return False
+        at = gflow.node_of(at_node)
+        ds = gflow.defs_reaching(at.id, e.id) if at is not None else []
+        return bool(ds) and all(d.kind == "unpack" and d.index == 0 and d.value is p2d[0] for d in ds)
+
+    sinks = []
+    for n in own_nodes(g.node):
+        if not isinstance(n, ast.Call):
+            continue
+        nm = (dotted(n.func) or "").split(".")[-1]
+        for k in n.keywords:
+            if k.arg in ("type", "_type"):
+                sinks.append((n, k.value))
+        if nm == "dict_to_sid" and len(n.args) >= 2:
+            sinks.append((n, n.args[1]))
+    builds = [n for n in own_nodes(g.node) if isinstance(n, ast.Call) and (dotted(n.func) or "").split(".")[-1] in ("dict_to_sid", "_init")]
+    bad = [(c, e) for c, e in sinks if not is_owner_type(e, c)]
+    untyped_builds = [c for c in builds if not any(c is c2 for c2, _ in sinks)]
+    if not sinks or bad or untyped_builds:
+        c = (bad[0][0] if bad else (untyped_builds[0] if untyped_builds else g.node))
+        res.violation([g.qualname, "owner type"], f"path_to_sid: `{norm(c)[:70]}` builds the Sid without the type path_to_dict found for the path: the type is "
+                                                  f"derived again from the fields, and a path of a later type with the same keys becomes a Sid of the first",
+                      g.relpath, getattr(c, "lineno", g.node.lineno))
+    else:
+        res.ok("sid_factory.path_to_sid", f"{len(sinks)} construction step(s) take the type from path_to_dict(path)[0]")
+    return res
